@@ -6,7 +6,7 @@ D="$1"
 WT=${VERIFY_WT:-/tmp/wt/verify}
 export CARGO_NET_OFFLINE=true CARGO_TARGET_DIR=${VERIFY_WT:-/tmp/wt/verify}-target
 if [ ! -d "$WT" ]; then git -C /repo worktree add -q --detach "$WT" HEAD || exit 2; cp /repo/Cargo.lock "$WT/"; fi
-cd "$WT" && git reset -q --hard && git checkout -q --detach "$(git -C /repo rev-parse HEAD)" && git reset -q --hard && git clean -qfd rscel/tests extensions wasm/tests 2>/dev/null
+cd "$WT" && git reset -q --hard && git clean -qfd 2>/dev/null; git checkout -q --detach "$(git -C /repo rev-parse HEAD)" && git reset -q --hard; [ "$(git rev-parse HEAD)" = "$(git -C /repo rev-parse HEAD)" ] || { echo "VERIFY_WORKTREE_NOT_AT_HEAD"; exit 4; }
 cp /repo/Cargo.lock "$WT/" 2>/dev/null
 if ! git apply "$D/patch.diff" 2>/dev/null; then git apply --3way "$D/patch.diff" >/dev/null 2>&1 || { echo "PATCH_DOES_NOT_APPLY"; exit 3; }; git reset -q; fi
 S=$(cargo test --workspace --no-fail-fast --offline 2>&1 | grep -E "^test result" | awk '{p+=$4; f+=$6} END {print p" passed "f" failed"}')
@@ -15,7 +15,7 @@ DP=rscel/tests/demo.rs; PKG=rscel
 case "$DP" in extensions/to_sql/*) PKG=rscel-to-sql ;; wasm/*) PKG=$(grep -m1 '^name' wasm/Cargo.toml | sed 's/.*"\(.*\)".*/\1/') ;; esac
 mkdir -p "$(dirname $DP)"; cp "$D/demo.rs" "$DP"
 timeout 900 cargo test -p $PKG --test demo --offline >/tmp/wt/demo_with.log 2>&1; W=$?
-git reset -q --hard
+git reset -q --hard; git clean -qfd 2>/dev/null; mkdir -p "$(dirname $DP)"; cp "$D/demo.rs" "$DP"
 timeout 900 cargo test -p $PKG --test demo --offline >/tmp/wt/demo_without.log 2>&1; WO=$?
 rm -f "$DP"
 echo "SUITE_WITH_CHANGE=[$S] DEMO_WITH_CHANGE=$([ $W = 0 ] && echo pass || echo fail) DEMO_WITHOUT=$([ $WO = 0 ] && echo pass || echo fail)"
